@@ -1,1 +1,2 @@
+pub mod pipeline;
 pub mod queue;
